@@ -530,3 +530,33 @@ func (n *Network) Shutdown() {
 	case <-time.After(5 * time.Second):
 	}
 }
+
+// AbortConn ends the server->client direction of connection id as Abort does
+// and closes the client->server direction for the broker (the handler's reads
+// fail), as if the client's host had vanished from the network.
+func (n *Network) AbortConn(id int, rst bool) bool {
+	n.mu.Lock()
+	var p *pair
+	for _, c := range n.conns {
+		if c.id == id {
+			p = c
+		}
+	}
+	n.mu.Unlock()
+	if p == nil {
+		return false
+	}
+	sc := &ServerConn{p.serverEnd}
+	sc.Abort(rst)
+	p.serverEnd.Close()
+	return true
+}
+
+// ConnID extracts the connection id from the client end returned by Dial (0 if
+// the value is not a memnet connection).
+func ConnID(c net.Conn) int {
+	if e, ok := c.(*end); ok {
+		return e.p.id
+	}
+	return 0
+}
